@@ -626,3 +626,51 @@ Definition own_edge_label (with_labels : bool) (x : tree) : option str :=
   else None.
 Definition m_edge_labels_ok (with_labels : bool) (t : tree) (labels : list (option str)) : bool :=
   all2 (fun x l => opt_eqb str_eqb (own_edge_label with_labels x) l) (tl (pre t)) labels.
+
+(* ============================================================================================== *)
+(* 6. box-drawing styles: connectivity read from the arms of the characters.
+   The Unicode names of the box-drawing characters say which arms a character has (BOX DRAWINGS
+   LIGHT / HEAVY / DOUBLE ... UP, DOWN, LEFT, RIGHT, VERTICAL = UP+DOWN, HORIZONTAL = LEFT+RIGHT,
+   ARC DOWN AND RIGHT ...).  [box_norm] maps every heavy, double and arc character the styles use to
+   the LIGHT character with the same arms; nothing here is taken from bigtree's style tables.
+   What a drawing needs: the connector of a first child has the arms DOWN+RIGHT, of a last child
+   UP+RIGHT, of any other child UP+DOWN+RIGHT (plus LEFT when the child shares its parent's row);
+   a parent's own connector UP+DOWN+LEFT; a stem UP+DOWN; a branch LEFT+RIGHT.  In the vertical
+   form: stem = UP+DOWN, connector of a child with a following sibling UP+DOWN+RIGHT, of the last
+   child UP+RIGHT, each followed by HORIZONTAL. *)
+
+Definition box_norm (c : N) : N :=
+  match c with
+  | 9473%N | 9552%N => 9472%N                 (* HEAVY / DOUBLE HORIZONTAL        -> LIGHT HORIZONTAL *)
+  | 9475%N | 9553%N => 9474%N                 (* HEAVY / DOUBLE VERTICAL          -> LIGHT VERTICAL *)
+  | 9487%N | 9556%N | 9581%N => 9484%N        (* HEAVY / DOUBLE / ARC DOWN AND RIGHT *)
+  | 9495%N | 9562%N | 9584%N => 9492%N        (* HEAVY / DOUBLE / ARC UP AND RIGHT *)
+  | 9507%N | 9568%N => 9500%N                 (* HEAVY / DOUBLE VERTICAL AND RIGHT *)
+  | 9515%N | 9571%N => 9508%N                 (* HEAVY / DOUBLE VERTICAL AND LEFT *)
+  | 9547%N | 9580%N => 9532%N                 (* HEAVY / DOUBLE VERTICAL AND HORIZONTAL *)
+  | _ => c
+  end.
+
+(* U+2500 .. U+257F *)
+Definition is_box (c : N) : bool := N.leb 9472 c && N.leb c 9599.
+
+(* the LIGHT characters by their arms: DOWN+RIGHT, VERTICAL+RIGHT, VERTICAL+LEFT,
+   VERTICAL+HORIZONTAL, UP+RIGHT, VERTICAL, HORIZONTAL *)
+Definition arm_glyphs : hglyphs := HG 9484 9500 9508 9532 9492 9474 9472.
+Definition arm_vstyle : vstyle :=
+  VS [9474; 32; 32; 32]%N [9500; 9472; 9472; 32]%N [9492; 9472; 9472; 32]%N.
+
+Fixpoint map_names (f : str -> str) (t : tree) : tree :=
+  match t with T g n a ks => T g (f n) a (map (map_names f) ks) end.
+
+(* after replacing every character by the light one with the same arms, the drawing decodes with
+   the light characters *)
+Definition h_box_decodable (inter : bool) (t : tree) (out : list str) : bool :=
+  let nt := map_names (map box_norm) t in
+  match h_decode arm_glyphs inter (band_widths inter nt) None (map (map box_norm) out) with
+  | Some dec => h_match inter dec nt
+  | None => false
+  end.
+
+Definition v_box_decodable (t : tree) (printed : list str) : bool :=
+  v_text_decodable arm_vstyle (map_names (map box_norm) t) (map (map box_norm) printed).
